@@ -109,6 +109,9 @@ def drive(ctx: Ctx, strategy, body: Callable[[Any], None], total: int, chunk: in
 	import hypothesis
 	from hypothesis import HealthCheck, Phase, given, settings
 
+	if getattr(ctx, 'fuzz', None):
+		_drive_atheris(ctx, strategy, body)  # does not return
+
 	done = 0
 	k = 0
 	while done < total and not ctx.out_of_time():
@@ -133,6 +136,39 @@ def drive(ctx: Ctx, strategy, body: Callable[[Any], None], total: int, chunk: in
 			break
 		done += n
 		k += 1
+
+
+def _drive_atheris(ctx: Ctx, strategy, body: Callable[[Any], None]) -> None:
+	"""Coverage-guided variant of drive(): libFuzzer (atheris) mutates the byte string Hypothesis decodes into one example of `strategy`
+	(`fuzz_one_input`), so the same generator, oracle and failure recording are used, steered by edge coverage of the instrumented tranp
+	modules. libFuzzer never returns control: when the time budget ends the shard result is written and the process exits."""
+	import atheris
+	from hypothesis import HealthCheck, given, settings
+
+	@settings(database=None, deadline=None, suppress_health_check=list(HealthCheck), print_blob=False)
+	@given(strategy)
+	def test(x):
+		body(x)
+
+	fuzz_one = test.hypothesis.fuzz_one_input
+	end = time.time() + float(ctx.fuzz['seconds'])
+
+	def finish() -> None:
+		ctx.labels['engine:atheris'] = ctx.evaluations
+		with open(ctx.fuzz['out'], 'w') as f:
+			json.dump(ctx.result(), f)
+		os._exit(0)
+
+	def one(data: bytes) -> None:
+		if time.time() >= end:
+			finish()
+		fuzz_one(data)
+
+	corpus = os.path.join(ctx.scratch, 'corpus')
+	os.makedirs(corpus, exist_ok=True)
+	atheris.Setup([sys.argv[0], f'-seed={ctx.hseed() % (2 ** 31 - 1) + 1}', f'-max_len={ctx.fuzz.get("max_len", 4096)}', '-len_control=0', '-timeout=300', '-rss_limit_mb=4096', '-print_final_stats=0', corpus], one)
+	atheris.Fuzz()
+	finish()
 
 
 def minimize(strategy, predicate: Callable[[Any], bool], seed: int, max_examples: int = 2000):
@@ -217,6 +253,42 @@ def _run_cases(modname: str, cases: list, procs: int) -> list:
 	mpctx = multiprocessing.get_context('fork')
 	with mpctx.Pool(procs) as pool:
 		return pool.map(_case_worker, [(modname, c) for c in cases], chunksize=1)
+
+
+def _fuzz_phase(modname: str, prop: str, tier: str, seed: int, budget: dict, scratch: str, excluded: list, cfg: dict, scale: float):
+	"""Runs cfg['procs'] libFuzzer processes (python -m vf.fuzz) and returns their shard results, [] when atheris is not installed, or an error text."""
+	import subprocess
+	probe = subprocess.run([sys.executable, '-c', 'import sys; sys.path.insert(0, %r); import atheris' % os.path.join(env.VERIF_DIR, '.deps')], capture_output=True)
+	if probe.returncode != 0:
+		print('NOTE: atheris is not installed (MANIFEST setup_cmd installs it into .deps): coverage-guided phase skipped')
+		return []
+	seconds = float(cfg.get('seconds', 120)) * (scale if tier == 'thorough' else min(scale, 1.0) * 0.25)
+	procs = []
+	for i in range(int(cfg.get('procs', 8))):
+		sdir = os.path.join(scratch, f'fuzz{i}')
+		os.makedirs(sdir, exist_ok=True)
+		job = {'modname': modname, 'prop': prop, 'tier': tier, 'seed': seed, 'shard': 100 + i, 'nshards': 100 + int(cfg.get('procs', 8)), 'budget': budget, 'scratch': sdir,
+			'excluded': list(excluded), 'fuzz': dict(cfg, seconds=seconds, out=os.path.join(sdir, 'result.json'))}
+		with open(os.path.join(sdir, 'job.json'), 'w') as f:
+			json.dump(job, f)
+		log = open(os.path.join(sdir, 'log.txt'), 'w')
+		procs.append((sdir, log, subprocess.Popen([sys.executable, os.path.join(env.VERIF_DIR, 'vf', 'fuzz.py'), os.path.join(sdir, 'job.json')], stdout=log, stderr=subprocess.STDOUT,
+			env=dict(os.environ, PYTHONHASHSEED='0', VERIF_REPO=env.REPO), cwd=env.VERIF_DIR)))
+	out = []
+	for sdir, log, p in procs:
+		try:
+			p.wait(timeout=seconds * 3 + 600)
+		except subprocess.TimeoutExpired:
+			p.kill()
+			return f'fuzz process did not finish within {seconds * 3 + 600:.0f}s (inconclusive)'
+		log.close()
+		res = os.path.join(sdir, 'result.json')
+		if p.returncode != 0 or not os.path.exists(res):
+			tail = open(os.path.join(sdir, 'log.txt'), errors='replace').read()[-3000:]
+			return f'fuzz process exited with {p.returncode}\n{tail}'
+		with open(res) as f:
+			out.append(json.load(f))
+	return out
 
 
 def _worker(args) -> dict:
@@ -406,6 +478,14 @@ def run_check(modname: str, tier: str, replay_path: str | None = None) -> int:
 		if errs:
 			print('HARNESS-ERROR in shard:\n' + errs[0])
 			return EXIT_HARNESS
+		# 3b. coverage-guided phase (atheris / libFuzzer over the same strategies and oracles): thorough tier, or VERIF_FUZZ=1
+		fuzz_cfg = getattr(mod, 'FUZZ', None)
+		if fuzz_cfg and (tier == 'thorough' or os.environ.get('VERIF_FUZZ') == '1') and os.environ.get('VERIF_FUZZ') != '0':
+			fuzz_results = _fuzz_phase(modname, prop, tier, seed, budget, scratch.path, excluded, fuzz_cfg, scale)
+			if isinstance(fuzz_results, str):
+				print('HARNESS-ERROR in coverage-guided phase:\n' + fuzz_results)
+				return EXIT_HARNESS
+			results = list(results) + fuzz_results
 		merged = merge(results)
 		if hasattr(mod, 'finish'):
 			mod.finish(merged, tier)
